@@ -1,7 +1,7 @@
 (* C02 -- lossless mode reproduces every sample exactly.
    Property theorems only: statement + exact + Print Assumptions. *)
 From Coq Require Import List ZArith.
-From LJT Require Import model.Huff model.Lossless model.LosslessLazy proofs.LosslessLazyProofs model.LosslessPixels proofs.LosslessPixelsProofs model.LosslessBytes proofs.LosslessBytesProofs proofs.LosslessProofs proofs.LosslessScanProofs proofs.LosslessBitsProofs proofs.LosslessHuffProofs proofs.LosslessSuspendProofs gen.GenLossless proofs.LosslessGenProofs.
+From LJT Require Import model.Huff model.Lossless model.LosslessLazy model.LosslessBitReg proofs.LosslessBitRegProofs proofs.LosslessLazyProofs model.LosslessPixels proofs.LosslessPixelsProofs model.LosslessBytes proofs.LosslessBytesProofs proofs.LosslessProofs proofs.LosslessScanProofs proofs.LosslessBitsProofs proofs.LosslessHuffProofs proofs.LosslessSuspendProofs gen.GenLossless proofs.LosslessGenProofs.
 Import ListNotations.
 Local Open Scope Z_scope.
 
@@ -258,6 +258,60 @@ Theorem C02_bytes_pixels_source_facts :
 Proof. exact gen_bytes_pixels_facts. Qed.
 Print Assumptions C02_bytes_pixels_source_facts.
 
+(* NUMERIC BIT REGISTER.  get_buffer (64-bit bit_buf_type) / bits_left with the shifts and
+   masks of the code refine the bit-list register of model/LosslessLazy.v (abstraction: the
+   low bits_left bits of get_buffer, first bit first):
+   - "get_buffer = (get_buffer << 8) | c; bits_left += 8" appends the byte, nothing is lost
+     while bits_left + 8 <= 64;
+   - GET_BITS(n) = ((int)(get_buffer >> (bits_left -= n))) & ((1 << n) - 1) returns the value
+     of the first n bits held and drops them (n <= 31, n <= bits_left);
+   - DROP_BITS leaves exactly the bits a table decoder did not consume *)
+Theorem C02_bitreg_ops_refine :
+  (forall r c, reg_inv r -> snd r + 8 <= 64 -> 0 <= c < 256 ->
+     reg_bits (reg_load r c) = reg_bits r ++ Lossless.bits_of 8 c /\ reg_inv (reg_load r c)) /\
+  (forall r n, reg_inv r -> 0 <= n <= snd r -> n <= 31 ->
+     get_bits (Z.to_nat n) 0 (reg_bits r) = Some (reg_peek r n, reg_bits (reg_drop r n)) /\ reg_inv (reg_drop r n)) /\
+  (forall r pre rest, reg_inv r -> reg_bits r = pre ++ rest ->
+     reg_bits (reg_drop r (snd r - Z.of_nat (length rest))) = rest /\
+     reg_inv (reg_drop r (snd r - Z.of_nat (length rest)))).
+Proof. exact (conj reg_load_spec (conj reg_get_spec reg_drop_spec)). Qed.
+Print Assumptions C02_bitreg_ops_refine.
+
+(* jpeg_fill_bit_buffer on the numeric register (fill loop while bits_left < MIN_GET_BITS,
+   zero bits after a premature marker) is the bit-list one, and the invariant
+   0 <= bits_left <= 64, 0 <= get_buffer < 2^64 is kept: bits_left never exceeds bit_buf_type *)
+Theorem C02_bitreg_fill_refines : forall s n,
+  rstate_inv s -> 0 <= n <= Z.of_nat MIN_GET_BITS ->
+  match reg_fill_bit_buffer s n with
+  | Some s' => fill_bit_buffer (abs_state s) (Z.to_nat n) = Some (abs_state s') /\ rstate_inv s'
+  | None => fill_bit_buffer (abs_state s) (Z.to_nat n) = None
+  end.
+Proof. exact reg_fill_refines. Qed.
+Print Assumptions C02_bitreg_fill_refines.
+
+(* one difference decoded with the numeric register (refills, table decoder on the bits held +
+   DROP_BITS, CHECK_BIT_BUFFER + GET_BITS + HUFF_EXTEND) = the bit-list lazy_decode_tok that
+   C02_samples_bytes_samples is about, for any table decoder that returns a category and
+   the suffix it did not consume *)
+Theorem C02_bitreg_token_refines :
+  forall dec : Z -> list bool -> option (Z * list bool),
+  (forall tbl bs s rest, dec tbl bs = Some (s, rest) -> exists pre, bs = pre ++ rest) ->
+  (forall tbl bs s rest, dec tbl bs = Some (s, rest) -> 0 <= s <= 16) ->
+  forall tbl st, rstate_inv st ->
+  match reg_decode_tok dec tbl st with
+  | Some (d, st') => lazy_decode_tok dec tbl (abs_state st) = Some (d, abs_state st') /\ rstate_inv st'
+  | None => lazy_decode_tok dec tbl (abs_state st) = None
+  end.
+Proof. exact reg_decode_tok_refines. Qed.
+Print Assumptions C02_bitreg_token_refines.
+
+(* tie: BIT_BUF_SIZE and MIN_GET_BITS as generated; (MIN_GET_BITS - 1) + 8 <= BIT_BUF_SIZE *)
+Theorem C02_bitreg_source_facts :
+  gen_bit_buf_size = BIT_BUF_SIZE /\ gen_min_get_bits = Z.of_nat MIN_GET_BITS /\
+  (gen_min_get_bits - 1) + 8 <= gen_bit_buf_size.
+Proof. exact gen_bitreg_facts. Qed.
+Print Assumptions C02_bitreg_source_facts.
+
 (* tie: MIN_GET_BITS of the 64-bit build as read from jdhuff.h / jdhuff.c is the model's; the
    translator also refuses to run unless jpeg_fill_bit_buffer, the row loop of decompress_data
    (restart test, MCU_vert_offset saved on suspension, restart_pending), process_restart and
@@ -336,6 +390,12 @@ Example C02_ex_scan_bytes :
   ivs_ok 2 2 1 ex_ivs /\
   enc_total (fun _ => ex_ct) 2 (0, 0) (2, 0) (concat ex_ivs) = Some [128; 95; 255; 208; 9; 31; 255; 0].
 Proof. exact ex_ivs_bytes. Qed.
+Example C02_ex_bitreg :
+  let s0 := {| rs_reg := (0, 0); rs_inp := [171; 255; 0; 18; 255; 208]; rs_marker := None; rs_insuf := false |} in
+  rstate_inv s0 /\
+  reg_fill_bit_buffer s0 0 = Some {| rs_reg := (11271954, 24); rs_inp := []; rs_marker := Some 208; rs_insuf := false |} /\
+  reg_get (11271954, 24) 4 = (10, (11271954, 20)).
+Proof. exact bitreg_example. Qed.
 Example C02_ex_prefix_code : forall tbl s rest, 0 <= s <= 16 ->
   fixed_dec tbl (fixed_code tbl s ++ rest) = Some (s, rest).
 Proof. exact fixed_code_ok. Qed.
